@@ -517,6 +517,13 @@ impl<'a> CGen<'a> {
             let mut d = EDecl { sectors: vec![], claims: vec![], new_exp, bad_deadline: self.r.chance(2) };
             if with_claims { d.claims.push(self.sclaim(cw, s, n, new_exp)); } else { d.sectors.push(n); }
             if self.r.chance(5) { d.sectors.push(n); }
+            // the same sector in a second declaration of the same message: without a claim list
+            // (its claims were declared once already) and with a later expiration
+            if with_claims && self.r.chance(9) {
+                let later = match self.r.below(3) { 0 => (max_end + self.r.range(1, 50_000)).min(cap), 1 => cap, _ => (new_exp + self.r.range(0, 1000)).min(cap) };
+                decls.push(d.clone());
+                d = EDecl { sectors: vec![n], claims: vec![], new_exp: later.max(new_exp), bad_deadline: false };
+            }
             decls.push(d);
         }
         COp::Extend2 { epoch, caller, decls }
@@ -590,6 +597,10 @@ fn prefix(r: &mut Prng, cw: &CWorld) -> Vec<Box<dyn FnOnce(&CSnap, i64, &mut Prn
 fn caller_existing(_cw: &CWorld, op: COp) -> COp { op }
 
 fn expected_panic_c(op: &COp, pre: &CSnap, epoch: i64) -> bool {
+    // extending a sector to the current epoch makes qa_power_for_weight divide by zero
+    if let COp::Extend2 { epoch: e, decls, .. } = op {
+        return decls.iter().any(|d| d.new_exp == *e);
+    }
     if let COp::Vr(VOp::RemoveExpClaims { provider, ids, .. }) = op {
         let ok: Vec<u64> = ids.iter().filter(|i| pre.s.claims.get(&(*provider, **i)).map(|c| epoch >= c.term_start + c.term_max).unwrap_or(false)).cloned().collect();
         let mut s = BTreeSet::new();
